@@ -4,6 +4,7 @@ import (
 	"runtime"
 	"strings"
 	"testing"
+	"time"
 	"testing/synctest"
 
 	"verifh/evid"
@@ -79,6 +80,17 @@ func TestC06(t *testing.T) {
 		// loss reports also for links never reported established (loss overtakes establish)
 		{"explicit-events/loss-before-establish", &tch.Config{Links: links, Lookups: lookups[:1], StaticLookups: true, LoseNeverEstablished: true}, 6, 10},
 	}
+	// seam R first (the real QUIC transport under the real controller), with at
+	// most 6 minutes of the budget: the E3 scenarios below use whatever is left
+	dR := 5
+	if !run.Quick() {
+		dR = 7
+	}
+	dlR := run.Deadline()
+	if c := time.Now().Add(6 * time.Minute); c.Before(dlR) {
+		dlR = c
+	}
+	resR := hist.BFS(t, realSeamConfig(dR, dlR))
 	unconfirmed := 0
 	for _, sc := range scens {
 		d := sc.dq
@@ -94,12 +106,7 @@ func TestC06(t *testing.T) {
 		agg.AddHist(res)
 	}
 	exploreE2(t, run, agg)
-	// seam R: the real QUIC transport under the real controller
-	dR := 5
-	if !run.Quick() {
-		dR = 7
-	}
-	agg.AddHist(hist.BFS(t, realSeamConfig(dR, run.Deadline())))
+	agg.AddHist(resR)
 	agg.Finish(false)
 	run.Cov["violations_dropped_as_not_reproducible"] = unconfirmed
 	run.Assumptions = append(run.Assumptions,
